@@ -61,8 +61,13 @@ def field_option_edges(body, field):
         if body.is_cleanup(bb):
             continue
         for st in body.blocks[bb]["stmts"]:
-            if st["k"] == "assign" and st["rv"]["k"] == "discr" and not st["pl"]["p"] and "Option<" in body.local_ty(st["rv"]["pl"]["l"]) and \
-                    any(field in o.path for o in origins(body, {"k": "copy", "pl": st["rv"]["pl"]})):
+            if st["k"] != "assign" or st["rv"]["k"] != "discr" or st["pl"]["p"]:
+                continue
+            fps = [e for e in st["rv"]["pl"]["p"] if isinstance(e, dict) and "f" in e]
+            direct = bool(fps) and fps[-1].get("n") == field and "Option<" in (fps[-1].get("t") or "Option<")
+            via_local = not fps and "Option<" in body.local_ty(st["rv"]["pl"]["l"]) and \
+                any(field in o.path for o in origins(body, {"k": "copy", "pl": st["rv"]["pl"]}))
+            if direct or via_local:
                 for sb in _switches_on_local(body, st["pl"]["l"]):
                     t = body.term(sb)
                     n_t, s_t = switch_target(t, 0), switch_target(t, 1)
@@ -2221,8 +2226,15 @@ def pair8_reversal(P, R, L, rule="PAIR-8"):
             continue
         R.analysed(b)
         ss = static_sites_reaching(P, b, step)
+        skip_edges = []
+        if not ss:
+            # the step written in place: `if let Some(i) = self.current_iterator_index { self.iterators[i].next(); }`
+            ss = [c for c in b.calls() if not b.is_cleanup(c.bb) and (c.declared_name or "") == "%s::%s" % (ITER_TRAIT, meth) and not in_cycle(b, c.bb)
+                  and any("iterators" in o.path or (o.kind == "call" and "index" in (o.name or "") and o.site is not None and
+                                                    any("iterators" in x.path for x in origins(b, o.site.args[0]))) for o in origins(b, c.args[0]))]
+            skip_edges = field_option_edges(b, "current_iterator_index")[1]
         cs_ = static_sites_reaching(P, b, chooser)
-        ok = bool(ss) and bool(cs_) and all(b.must_pass(c.bb, through_nodes=[s.bb for s in ss]) for c in cs_)
+        ok = bool(ss) and bool(cs_) and all(b.must_pass(c.bb, through_nodes=[s.bb for s in ss], through_edges=skip_edges) for c in cs_)
         # on the reversal edge every non-current child is re-seeked (a dyn seek inside a loop) before the step
         resk = [c for c in b.calls() if not b.is_cleanup(c.bb) and (c.declared_name or "") == ITER_TRAIT + "::seek" and in_cycle(b, c.bb)]
         st = field_stores(b, "direction")
@@ -2969,6 +2981,30 @@ def pair11_loaded_child_positioned(P, R, L, rule="PAIR-11", types=None):
             want = {"seek": "seek", "seek_to_first": "seek_to_first", "seek_to_last": "seek_to_last", fwd: "seek_to_first", bwd: "seek_to_last"}.get(meth)
             on_child = lambda c: bool(c.args) and any(child in o.path for o in origins(b, c.args[0]))
             pos = [c for c in b.calls() if not b.is_cleanup(c.bb) and (c.declared_name or "").startswith(ITER_TRAIT + "::seek") and on_child(c)]
+            pos_kind = {id(c): (c.declared_name or "").rsplit("::", 1)[1] for c in pos}
+
+            def helper_positions(path):
+                """kinds of seek a local helper applies to the child on every path where the child is Some (None if it does not)"""
+                h = P.bodies.get(path)
+                if h is None or path == loader:
+                    return None
+                hp = [c for c in h.calls() if not h.is_cleanup(c.bb) and (c.declared_name or "").startswith(ITER_TRAIT + "::seek")
+                      and c.args and any(child in o.path for o in origins(h, c.args[0]))]
+                if not hp or any(c.name == loader for c in h.calls()):
+                    return None
+                hn = field_option_edges(h, child)[1]
+                oks = _ok_blocks(h) or h.return_blocks()
+                if all(h.must_pass(r, through_nodes=[c.bb for c in hp], through_edges=hn) for r in oks):
+                    R.analysed(h)
+                    return {(c.declared_name or "").rsplit("::", 1)[1] for c in hp}
+                return None
+            for c in b.calls():
+                if not b.is_cleanup(c.bb) and c.t.get("local") and not c.t.get("dyn") and c.t.get("resolved") in P.bodies and c.t["resolved"] != loader \
+                        and not (c.declared_name or "").startswith(ITER_TRAIT):
+                    ks = helper_positions(c.t["resolved"])
+                    if ks and len(ks) == 1:
+                        pos.append(c)
+                        pos_kind[id(c)] = list(ks)[0]
             none_edges = []
             for c in b.calls():
                 if b.is_cleanup(c.bb) or c.name not in ("std::option::Option::is_some", "std::option::Option::is_none") or not on_child(c):
@@ -2996,7 +3032,7 @@ def pair11_loaded_child_positioned(P, R, L, rule="PAIR-11", types=None):
                     r = b.reachable(s, removed_nodes=[c.bb for c in pos] + others, removed_edges=none_edges)
                     if any(x in r for x in b.return_blocks()) and s not in others and s not in [c.bb for c in pos]:
                         bad.append(s)
-                kinds = sorted({(c.declared_name or "").rsplit("::", 1)[1] for c in pos})
+                kinds = sorted({pos_kind[id(c)] for c in pos})
                 ok = bool(pos) and not bad and (want is None or kinds == [want])
                 R.check(rule, "%s|%s-then-position" % (p, loader.rsplit("::", 1)[1]), ok, ld.where(),
                         "after %s succeeds the (possibly re-used) child iterator is positioned with %s on every path where it is Some" % (
